@@ -23,6 +23,7 @@
 #define vf_introspect VF_X(_vf_introspect)
 #define vf_is_mp11 VF_X(_vf_is_mp11)
 #define vf_visit VF_X(_vf_visit)
+#define vf_destroy VF_X(_vf_destroy)
 #define vf_probe VF_X(_vf_probe)
 #define vf_cnt VF_X(_vf_cnt)
 #define vf_reuse_moved_from VF_X(_vf_reuse_moved_from)
@@ -70,7 +71,8 @@ using msm::front::Row; using msm::front::Internal; using msm::front::none; using
 extern "C" {
 void vf_log(int code, int arg);
 int vf_guard(int site);
-int vf_hook(int site);      // harness-controlled decision at a behaviour position (submit / throw)
+int vf_hook(int site);
+void vf_life(int delta);   // C20: +1 for every constructed event object, -1 for every destroyed one      // harness-controlled decision at a behaviour position (submit / throw)
 }
 
 // payload of an event as seen by a behaviour: e.p if present, -1 otherwise (InitEvent, ...)
